@@ -13,30 +13,40 @@ Proof.
   - split; [apply (fold_htp_of s_buf (s :: s2 :: r)) | reflexivity].
 Qed.
 
-(* every packet is either filtered before source tracking (nothing changes) or handed to
-   TrackSourceIfRequired with priority <= 200 and preview not being ignored *)
-Lemma handle_cases c now st p :
-  handle c now st p = (st, OIgnore) \/
-  (p_prio p <= 200 /\ (p_preview p && c_ignore_preview c)%bool = false /\
-   exists frame sc0, (p_term p = false -> sc0 = true) /\
-     handle c now st p = apply_track st frame sc0 (track now p (u_srcs st) (u_active st))).
+(* a packet that passes the pre-tracking checks has priority <= 200, is not ignored preview data,
+   and carries start code 0 unless it is a terminate *)
+Lemma classify_some c p frame sc0 :
+  classify c p = Some (frame, sc0) ->
+  p_prio p <= 200 /\ (p_preview p && c_ignore_preview c)%bool = false /\
+  (p_term p = false -> sc0 = true).
 Proof.
-  unfold handle.
-  destruct (negb (p_vec p =? DMP_SET_PROPERTY_VECTOR)); [now left|].
-  destruct (p_preview p && c_ignore_preview c)%bool eqn:Pv; [now left|].
-  destruct (negb (p_univ p =? c_univ c)); [now left|].
-  destruct (negb (dmp_header_ok (p_dmph p))); [now left|].
-  destruct (SACN_MAX_PRIORITY <? p_prio p) eqn:Pr; [now left|].
-  destruct (decode_addr (p_pdu p)) as [[[start incr] number]|]; [|now left].
-  destruct (negb (incr =? 1)); [now left|].
+  unfold classify.
+  destruct (negb (p_vec p =? DMP_SET_PROPERTY_VECTOR)); [discriminate|].
+  destruct (p_preview p && c_ignore_preview c)%bool eqn:Pv; [discriminate|].
+  destruct (negb (p_univ p =? c_univ c)); [discriminate|].
+  destruct (negb (dmp_header_ok (p_dmph p))); [discriminate|].
+  destruct (SACN_MAX_PRIORITY <? p_prio p) eqn:Pr; [discriminate|].
+  destruct (decode_addr (p_pdu p)) as [[[start incr] number]|]; [|discriminate].
+  destruct (negb (incr =? 1)); [discriminate|].
   cbv zeta.
   match goal with
   | |- context [if (negb (?sc =? 0)%Z && negb (p_term p))%bool then _ else _] => set (SC := sc)
   end.
-  destruct (negb (SC =? 0)%Z && negb (p_term p))%bool eqn:G; [now left|].
-  right. split; [unfold SACN_MAX_PRIORITY in Pr; lia|]. split; [reflexivity|].
-  eexists _, _. split; [|reflexivity].
+  destruct (negb (SC =? 0)%Z && negb (p_term p))%bool eqn:G; [discriminate|].
+  intros H. injection H as <- <-.
+  split; [unfold SACN_MAX_PRIORITY in Pr; lia|]. split; [reflexivity|].
   intros T. rewrite T in G. destruct (SC =? 0)%Z; cbn in G; congruence.
+Qed.
+
+Lemma handle_cases c now st p :
+  handle c now st p = (st, OIgnore) \/
+  (p_prio p <= 200 /\ (p_preview p && c_ignore_preview c)%bool = false /\
+   exists frame sc0, (p_term p = false -> sc0 = true) /\ classify c p = Some (frame, sc0) /\
+     handle c now st p = apply_track st frame sc0 (track now p (u_srcs st) (u_active st))).
+Proof.
+  unfold handle. destruct (classify c p) as [[frame sc0]|] eqn:C; [|now left].
+  right. destruct (classify_some _ _ _ _ C) as (H1 & H2 & H3).
+  split; [exact H1|]. split; [exact H2|]. exists frame, sc0. auto.
 Qed.
 
 Definition live_after (now : N) (p : pkt) (st' : ust) : Prop :=
@@ -144,7 +154,7 @@ Lemma handle_ok c now st g p st' oc :
   tracked_ok st g -> handle c now st p = (st', oc) ->
   tracked_ok st' (gstep g now p oc) /\ step_post now p st st' oc.
 Proof.
-  intros Hinv H. destruct (handle_cases c now st p) as [E|(Hp & _ & frame & sc0 & Hsc & E)].
+  intros Hinv H. destruct (handle_cases c now st p) as [E|(Hp & _ & frame & sc0 & Hsc & _ & E)].
   - rewrite E in H. injection H as <- <-. cbn [gstep]. split; [exact Hinv | reflexivity].
   - rewrite E in H. eapply apply_track_ok; eauto.
 Qed.
@@ -165,20 +175,15 @@ Qed.
 (* ------------------------------------------------------------------ ignored packets *)
 Lemma handle_ignore_prio c now st p : 200 < p_prio p -> handle c now st p = (st, OIgnore).
 Proof.
-  intros H. unfold handle.
-  destruct (negb (p_vec p =? DMP_SET_PROPERTY_VECTOR)); [reflexivity|].
-  destruct (p_preview p && c_ignore_preview c)%bool; [reflexivity|].
-  destruct (negb (p_univ p =? c_univ c)); [reflexivity|].
-  destruct (negb (dmp_header_ok (p_dmph p))); [reflexivity|].
-  replace (SACN_MAX_PRIORITY <? p_prio p) with true; [reflexivity|].
-  symmetry. apply N.ltb_lt. unfold SACN_MAX_PRIORITY. exact H.
+  intros H. unfold handle. destruct (classify c p) as [[frame sc0]|] eqn:C; [|reflexivity].
+  destruct (classify_some _ _ _ _ C) as (H1 & _). lia.
 Qed.
 
 Lemma handle_ignore_preview c now st p :
   p_preview p = true -> c_ignore_preview c = true -> handle c now st p = (st, OIgnore).
 Proof.
-  intros H1 H2. unfold handle. rewrite H1, H2.
-  destruct (negb (p_vec p =? DMP_SET_PROPERTY_VECTOR)); reflexivity.
+  intros H1 H2. unfold handle. destruct (classify c p) as [[frame sc0]|] eqn:C; [|reflexivity].
+  destruct (classify_some _ _ _ _ C) as (_ & H & _). rewrite H1, H2 in H. discriminate.
 Qed.
 
 Lemma find_sender cid e s :
